@@ -30,7 +30,8 @@ struct SchedState {
 };
 static SchedState S;
 static std::mutex M; static std::condition_variable CVv; static int RUN = -1;
-static thread_local int TID = -1; static thread_local bool IN_HOOK = false;
+static thread_local int TID = -1; static thread_local bool IN_HOOK = false; static thread_local int CLOSES = 0;
+static int g_eintr_thread = -1, g_eintr_index = -1;   // environment deviation: the k-th close() of one thread releases the descriptor but reports EINTR (Linux semantics)
 
 NOINSTR static void wait_turn(int t) { std::unique_lock<std::mutex> l(M); CVv.wait(l, [&] { return RUN == t; }); }
 NOINSTR static void hand_to(int to) { { std::lock_guard<std::mutex> l(M); RUN = to; } CVv.notify_all(); }
@@ -58,7 +59,7 @@ NOINSTR ssize_t writev(int fd, const struct iovec* v, int c) { if (fd > 2) sched
 // "callee filled the buffer" and "caller consumes it" is where a wrongly shared scratch buffer is overwritten by another thread
 NOINSTR ssize_t read(int fd, void* b, size_t n) { if (fd > 2) sched_point('r'); ssize_t r = syscall(SYS_read, fd, b, n); if (fd > 2) sched_point('R'); return r; }
 NOINSTR int rename(const char* a, const char* b) { sched_point('n'); return (int)syscall(SYS_rename, a, b); }
-NOINSTR int close(int fd) { if (fd > 2) sched_point('c'); return (int)syscall(SYS_close, fd); }
+NOINSTR int close(int fd) { if (fd > 2) sched_point('c'); int r = (int)syscall(SYS_close, fd); if (fd > 2 && TID >= 0 && TID == g_eintr_thread && CLOSES++ == g_eintr_index && r == 0) { errno = EINTR; return -1; } return r; }
 NOINSTR int fstat(int fd, struct stat* st) { sched_point('s'); int r = (int)syscall(SYS_fstat, fd, st); sched_point('S'); return r; }
 NOINSTR const char* inet_ntop(int af, const void* src, char* dst, socklen_t size) { sched_point('i'); static auto f = real<const char* (*)(int, const void*, char*, socklen_t)>("inet_ntop"); const char* r = f(af, src, dst, size); sched_point('I'); return r; }
 NOINSTR int deflate(z_streamp s, int flush) { sched_point('d'); static auto f = real<int (*)(z_streamp, int)>("deflate"); int r = f(s, flush); sched_point('D'); return r; }
@@ -119,7 +120,7 @@ static RunOut controlled_run(const std::vector<int>& bodies, const std::vector<i
     RUN = -1;
     std::vector<std::thread> th;
     for (int t = 0; t < n; t++) th.emplace_back([&, t]() {
-        TID = t; wait_turn(t);
+        TID = t; CLOSES = 0; wait_turn(t);
         std::string d; try { d = run_body(bodies[t], t); } catch (std::exception& e) { d = std::string("EXC:") + e.what(); }
         IN_HOOK = true; out.digest[t] = d; S.done[t] = true;
         int en[8], ne = 0; for (int i = 0; i < n; i++) if (!S.done[i]) en[ne++] = i;
@@ -180,20 +181,20 @@ int main(int argc, char** argv) {
     }
 #endif
 
-    auto check_run = [&](const std::vector<int>& bodies, const std::vector<int>& prefix, int level, const RunOut& x, Result& R) {
-        std::string rep = prefix_str(bodies, prefix, level);
+    auto check_run = [&](const std::vector<int>& bodies, const std::vector<int>& prefix, int level, const RunOut& x, Result& R, int eintr = -1) {
+        std::string rep = prefix_str(bodies, prefix, level) + (eintr >= 0 ? ";eintr=" + std::to_string(eintr) : "");
         if (x.diverged) { R.violation("sched|HARNESS-divergence", "replay of a choice prefix met a smaller enabled set than recorded", rep); return; }
         for (size_t t = 0; t < bodies.size(); t++) if (x.digest[t] != refd[{bodies[t], (int)t}]) {
-            R.violation(std::string("sched|digest-differs|") + BN[bodies[t]] + "|with-" + BN[bodies[1 - (t ? 1 : 0)]], std::string("thread ") + std::to_string(t) + " (" + BN[bodies[t]] + ") produced " + x.digest[t].substr(0, 60) + " but sequentially " + refd[{bodies[t], (int)t}].substr(0, 60) + " under schedule " + rep.substr(0, 200), rep);
+            R.violation(std::string("sched|digest-differs|") + BN[bodies[t]] + "|with-" + BN[bodies[1 - (t ? 1 : 0)]] + (eintr >= 0 ? "|close-eintr" : ""), std::string("thread ") + std::to_string(t) + " (" + BN[bodies[t]] + ") produced " + x.digest[t].substr(0, 60) + " but sequentially " + refd[{bodies[t], (int)t}].substr(0, 60) + " under schedule " + rep.substr(0, 200), rep);
         }
     };
 
-    if (!a.replay.empty()) { std::string s = slurp(a.replay); std::vector<int> bodies, prefix; int level = 1; if (s.rfind("tsan", 0) == 0) return done(0); if (!parse_prefix(s, bodies, prefix, level)) return done(2);
-        Pool rp(1, 120); rp.run(1, [&](uint64_t, Result& R) { RunOut x1 = controlled_run(bodies, prefix, level), x2 = controlled_run(bodies, prefix, level); if (x1.digest != x2.digest) R.violation("sched|HARNESS-nondeterministic-replay", "same schedule, different digests", s); check_run(bodies, prefix, level, x1, R); R.count("traces"); },
+    if (!a.replay.empty()) { std::string s = slurp(a.replay); std::vector<int> bodies, prefix; int level = 1; if (s.rfind("tsan", 0) == 0) return done(0); if (!parse_prefix(s, bodies, prefix, level)) return done(2); int ei = -1; { size_t z = s.find(";eintr="); if (z != std::string::npos) ei = atoi(s.c_str() + z + 7); } g_eintr_thread = ei >= 0 ? 0 : -1; g_eintr_index = ei;
+        Pool rp(1, 120); rp.run(1, [&](uint64_t, Result& R) { RunOut x1 = controlled_run(bodies, prefix, level), x2 = controlled_run(bodies, prefix, level); if (x1.digest != x2.digest) R.violation("sched|HARNESS-nondeterministic-replay", "same schedule, different digests", s); check_run(bodies, prefix, level, x1, R, ei); R.count("traces"); },
                                [&](uint64_t, const std::string& d, Result& R) { R.violation("sched|" + crash_key(d), d.substr(0, 1500), s); }, total); return done(total.viol.empty() ? 0 : 1); }
 
     int level = a.kv.count("level") ? atoi(a.kv["level"].c_str()) : 1;
-    struct Task { std::vector<int> bodies; int i0; };
+    struct Task { std::vector<int> bodies; int i0; int eintr = -1; };
     std::vector<Task> tasks;
     if (level == 1) {
         // i0 = preemption bound of the task. quick: all pairs, 2 preemptions. thorough adds: a body with itself, 3 preemptions; triples, 2 preemptions.
@@ -201,14 +202,22 @@ int main(int argc, char** argv) {
         if (T) { static const int TB[] = {0, 1, 3, 4, 5};   // triples without the xz body (its encoder setup dominates the run time) and without the call-free body
                  for (int x = 0; x < 5; x++) for (int y = x; y < 5; y++) for (int z = y; z < 5; z++) tasks.push_back({{TB[x], TB[y], TB[z]}, 2});
                  for (int x : {0, 1, 3, 4, 5, 6}) tasks.push_back({{x, x}, 3}); }
+        // environment deviation: the k-th close() of thread 0 reports EINTR (the descriptor is released all the same); <= 1 preemption
+        // (two preemptions are the minimum for interference: away from the closing thread, and back to it before the other thread is done)
+        for (int x = 0; x < 5; x++) for (int y = 0; y < 6; y++) for (int k = 0; k < 3; k++) { bool core = x <= 2 && k == 0 && (y == 0 || y == 3 || y == 5); if (!T && !core) continue; Task t{{x, y}, 2}; t.eintr = k; tasks.push_back(t); }
         Pool pool(a.jobs, 0);   // the watchdog is armed per schedule below (a task explores thousands of schedules)
+        // sequential digests under the same injected EINTR (harmless when nothing runs in between)
+        std::map<std::pair<int, int>, std::string> refd_eintr;
+        for (int x = 0; x < 5; x++) for (int k = 0; k < 3; k++) { g_eintr_thread = 0; g_eintr_index = k; std::thread th([&]() { TID = 0; CLOSES = 0; refd_eintr[{x, k}] = run_body(x, 0); TID = -1; }); th.join(); g_eintr_thread = -1; }
         pool.run(tasks.size(), [&](uint64_t ti, Result& R) {
             const Task& t = tasks[ti]; int bound = t.i0; uint64_t nsched = 0; std::set<std::string> seen_digest;
+            g_eintr_thread = t.eintr >= 0 ? 0 : -1; g_eintr_index = t.eintr;
+            if (t.eintr >= 0 && refd_eintr[{t.bodies[0], t.eintr}] != refd[{t.bodies[0], 0}]) R.violation(std::string("sched|eintr-sequential|") + BN[t.bodies[0]], "a close() reporting EINTR changes the sequential result", "level=1;bodies=" + std::to_string(t.bodies[0]) + ",;prefix=;eintr=" + std::to_string(t.eintr));
             std::function<void(const std::vector<int>&)> explore = [&](const std::vector<int>& prefix) {
                 if (a.expired()) { R.deadline_hit = true; return; }
-                set_note(prefix_str(t.bodies, prefix, 1));
+                set_note(prefix_str(t.bodies, prefix, 1) + (t.eintr >= 0 ? ";eintr=" + std::to_string(t.eintr) : ""));
                 alarm(120); RunOut x = controlled_run(t.bodies, prefix, 1); alarm(0); nsched++; R.count("traces"); R.count("transitions", x.points.size());
-                check_run(t.bodies, prefix, 1, x, R);
+                check_run(t.bodies, prefix, 1, x, R, t.eintr);
                 int cost = 0; std::vector<int> choices; for (auto& p : x.points) choices.push_back(p.choice);
                 std::vector<int> costs(x.points.size() + 1, 0); for (size_t i = 0; i < x.points.size(); i++) costs[i + 1] = costs[i] + ((x.points[i].running_enabled && x.points[i].choice != 0) ? 1 : 0);
                 (void)cost;
